@@ -1,7 +1,6 @@
 (* C15 -- injected constants and constructed opcodes mean what was asked, or are refused.
-   Model: coq/model/Const.v (encoders of fickling/fickle.py as written, with the REPAIRED
-   Int/ConstantInt.validate of notes/fix_int_validate.patch; readers of CPython 3.12 pickletools and
-   the stock unpickler on the emitted fragment).  Tables: coq/gen/ConstTable.v, OpTable.v. *)
+   Model: coq/model/Const.v (encoders of fickling/fickle.py as written on the tree with D7 and D13
+   repaired; readers of CPython 3.12 pickletools and the stock unpickler on the emitted fragment).  Tables: coq/gen/ConstTable.v, OpTable.v. *)
 From Coq Require Import List String ZArith NArith Bool.
 From Coq.Strings Require Import Byte.
 From Verif Require Import Base OpTable ConstTable Codec Const ConstProofs.
@@ -29,9 +28,11 @@ Definition demo : pv :=
          PDict [(PStr (bytes_of_str "k"), PList [PInt 1; PDict [(PInt 2, PBytes [])]])]].
 Example C15_demo_wf : pv_wf demo.
 Proof. cbn. unfold blen, ssize_max. cbn. repeat split; try exact I; discriminate. Qed.
+Definition demo_built : cres (list byte) := Eval vm_compute in build demo.
 Example C15_demo_built :
-  exists bs, build demo = COk bs /\ loads (bs ++ [stop_byte]) = COk demo.
-Proof. eexists. split; vm_compute; reflexivity. Qed.
+  build demo = demo_built /\
+  match demo_built with COk bs => loads (bs ++ [stop_byte]) = COk demo | CErr _ => False end.
+Proof. split; vm_compute; reflexivity. Qed.
 (* refusals exist too: bool (after the repair), unsupported types, a non-constant dict key *)
 Example C15_refused_bool : build (PBool true) = CErr XValue. Proof. vm_compute. reflexivity. Qed.
 Example C15_refused_other : build (PList [POther]) = CErr XValue. Proof. vm_compute. reflexivity. Qed.
@@ -39,10 +40,19 @@ Example C15_numeric_text_stays_text :
   exists c, const_new (PStr (bytes_of_str "123")) = COk (c, PBytes (bytes_of_str "123")) /\ c_cls c = "ShortBinUnicode"%string.
 Proof. eexists. split; vm_compute; reflexivity. Qed.
 
+(* text with lone surrogates (its surrogatepass UTF-8 bytes) is an ordinary text value *)
+Example C15_surrogate_text_arrives :
+  build (PStr [xed; xa0; x80]) = COk [x8c; x03; xed; xa0; x80] /\
+  loads ([x8c; x03; xed; xa0; x80] ++ [stop_byte]) = COk (PStr [xed; xa0; x80]).
+Proof. split; vm_compute; reflexivity. Qed.
+
 (* ---- second sentence ----
-   For every class in the groups below and EVERY argument of the type its opcode carries: if encode()
-   returns bytes, pickletools.genops reads exactly one token from them, it is that opcode, its
-   argument is the argument the object was built with, and nothing is left over. *)
+   For every class in sound_names and EVERY argument of the type its opcode carries (all integers, all
+   64-bit patterns, all byte strings, all texts -- for UNICODE every argument its encoder accepts, i.e.
+   every valid (surrogatepass) UTF-8 byte string; for STRING / SHORT_BINSTRING / BINSTRING every text
+   the encoder does not refuse, BINSTRING below 2^31 bytes): if encode() returns bytes,
+   pickletools.genops reads exactly one token from them, it is that opcode, its argument is the
+   argument the object was built with, and nothing is left over. *)
 Theorem C15_opcode_decodes_back :
   forall n c a bs, find_class n = Some c -> type_appropriate n a -> encode c a = COk bs -> reads_back c a bs.
 Proof. exact opcode_decodes_back. Qed.
@@ -59,43 +69,62 @@ Theorem C15_refusals_are_errors :
 Proof. exact no_encoder_refuses. Qed.
 
 (* every Opcode subclass of the live module is in one of the groups: argument-less / refuses /
-   proved sound above / known-wrong (refuted below) / Global (differential only) *)
+   proved sound above / Global (differential only) *)
 Theorem C15_every_class_accounted_for :
   forallb (fun c => negb (String.eqb (classify c) "unclassified")) opcode_classes = true.
 Proof. exact all_classified. Qed.
 
-(* non-vacuity of the three theorems above on the live table *)
+(* the building blocks of the repaired encoders, for all inputs *)
+Theorem C15_encode_long_roundtrip : forall z, decode_long (encode_long z) = z.
+Proof. exact decode_encode_long. Qed.
+Theorem C15_utf8_decode_inverts : forall s cps, utf8_decode s = Some cps -> flat_map utf8_cp cps = s.
+Proof. intros s cps H. exact (proj1 (utf8_decode_inv s cps H)). Qed.
+Theorem C15_raw_unicode_escape_roundtrip :
+  forall cps rest, Forall (fun n => (n <= 1114111)%N) cps ->
+  genops1 (x56 :: raw_unicode_escape cps ++ rest) = COk (("UNICODE"%string, GText (flat_map utf8_cp cps)), rest).
+Proof. exact tok_unicode. Qed.
+Theorem C15_repr_roundtrip : forall s, unescape (flat_map (repr_byte (repr_quote s)) s) = COk s.
+Proof. intros s. apply unescape_repr. apply repr_quote_cases. Qed.
+
+(* non-vacuity on the live table *)
 Example C15_groups_nonempty :
   existsb plain_noarg opcode_classes = true /\ existsb no_encoder opcode_classes = true /\
-  forallb (fun n => match find_class n with Some c => String.eqb (classify c) "sound" || String.eqb (classify c) "refuses" | None => false end) sound_names = true /\
-  forallb (fun n => match find_class n with Some c => String.eqb (classify c) "unsound" | None => false end) unsound_names = true.
+  forallb (fun n => match find_class n with Some c => String.eqb (classify c) "sound" || String.eqb (classify c) "refuses" | None => false end) sound_names = true.
 Proof. repeat split; vm_compute; reflexivity. Qed.
 Example C15_binput_refuses : exists c, find_class "BinPut" = Some c /\ no_encoder c = true.
 Proof. eexists. split; vm_compute; reflexivity. Qed.
 Example C15_decodes_back_nonvacuous :
   reads_backb "BinInt2" (PInt 65535) = true /\ reads_backb "Int" (PInt (-(2 ^ 64))) = true /\
-  reads_backb "BinUnicode" (PStr [xc3; xa9]) = true /\ reads_backb "Get" (PBytes (bytes_of_str "5" ++ [nl])) = true /\
+  reads_backb "BinUnicode" (PStr [xc3; xa9]) = true /\ reads_backb "Get" (PBytes (bytes_of_str "5" ++ [nl])%list) = true /\
   reads_backb "Unicode" (PBytes (bytes_of_str "1+1")) = true.
 Proof. repeat split; vm_compute; reflexivity. Qed.
 
-(* ---- D13: the faithful model violates the second sentence for these (class, argument class) ---- *)
-Theorem C15_String_refuted : reads_backb "String" (PStr (bytes_of_str "abc")) = false.
-Proof. vm_compute. reflexivity. Qed.
-Theorem C15_ShortBinString_refuted : reads_backb "ShortBinString" (PStr (bytes_of_str "abc")) = false.
-Proof. vm_compute. reflexivity. Qed.
-Theorem C15_BinString_refuted : reads_backb "BinString" (PStr (bytes_of_str "abc")) = false.
-Proof. vm_compute. reflexivity. Qed.
-Theorem C15_Long1_refuted : reads_backb "Long1" (PInt 5) = false.
-Proof. vm_compute. reflexivity. Qed.
-Theorem C15_Long4_refuted : reads_backb "Long4" (PInt 1) = false.
-Proof. vm_compute. reflexivity. Qed.
-Theorem C15_Unicode_nonascii_refuted : reads_backb "Unicode" (PBytes [xc3; xa9]) = false.
-Proof. vm_compute. reflexivity. Qed.
-Theorem C15_Unicode_escape_refuted :
-  reads_backb "Unicode" (PBytes [x61; x0a; x62]) = false /\
-  reads_backb "Unicode" (PBytes [x5c; x75; x30; x30; x34; x31]) = false   (* backslash u 0 0 4 1 *).
-Proof. split; vm_compute; reflexivity. Qed.
-(* ... and these classes are never picked by ConstantOpcode.new for an integer (min_value > max_value) *)
+(* the former D13 witnesses (…_refuted before the repair) now read back, with bytes as the stock
+   pickler would write them *)
+Example C15_String_now_reads_back :
+  (exists c, find_class "String" = Some c /\ encode c (PStr (bytes_of_str "abc")) = COk ((bytes_of_str "S'abc'" ++ [nl])%list))
+  /\ reads_backb "String" (PStr (bytes_of_str "it's a" ++ [x09; x5c])%list) = true.
+Proof. split; [eexists; split |]; vm_compute; reflexivity. Qed.
+Example C15_BinStrings_now_read_back :
+  reads_backb "ShortBinString" (PStr (bytes_of_str "abc")) = true /\
+  reads_backb "BinString" (PStr [xc3; xa9; xc3; xbf]) = true /\
+  (exists c, find_class "ShortBinString" = Some c /\ encode c (PStr [xe2; x82; xac]) = CErr XValue).
+Proof. repeat split; try (eexists; split); vm_compute; reflexivity. Qed.
+Example C15_Longs_now_read_back :
+  reads_backb "Long1" (PInt 5) = true /\ reads_backb "Long4" (PInt 1) = true /\
+  reads_backb "Long1" (PInt (-129)) = true /\ reads_backb "Long4" (PInt (2 ^ 70)) = true /\
+  (exists c, find_class "Long1" = Some c /\ encode c (PInt 5) = COk [x8a; x01; x05]).
+Proof. repeat split; try (eexists; split); vm_compute; reflexivity. Qed.
+Example C15_Unicode_now_reads_back :
+  reads_backb "Unicode" (PBytes [xc3; xa9]) = true /\                       (* e-acute *)
+  reads_backb "Unicode" (PBytes [x61; x0a; x62]) = true /\                  (* a newline b *)
+  reads_backb "Unicode" (PBytes [x5c; x75; x30; x30; x34; x31]) = true /\    (* backslash u 0 0 4 1 *)
+  reads_backb "Unicode" (PBytes [xf0; x9f; x98; x80; xed; xa0; x80]) = true /\ (* astral, lone surrogate *)
+  (exists c, find_class "Unicode" = Some c /\ encode c (PBytes [xff]) = CErr XValue).
+Proof. repeat split; try (eexists; split); vm_compute; reflexivity. Qed.
+
+(* BinInt, Long1, Long4 are still never picked by ConstantOpcode.new for an integer
+   (min_value > max_value in their signed ranges) -- harmless *)
 Theorem C15_long_never_chosen :
   forall z c a, const_new (PInt z) = COk (c, a) -> c_cls c <> "Long1"%string /\ c_cls c <> "Long4"%string /\ c_cls c <> "BinInt"%string.
 Proof. exact long_never_chosen. Qed.
@@ -105,11 +134,8 @@ Print Assumptions C15_opcode_decodes_back.
 Print Assumptions C15_noarg_opcode_decodes_back.
 Print Assumptions C15_refusals_are_errors.
 Print Assumptions C15_every_class_accounted_for.
-Print Assumptions C15_String_refuted.
-Print Assumptions C15_ShortBinString_refuted.
-Print Assumptions C15_BinString_refuted.
-Print Assumptions C15_Long1_refuted.
-Print Assumptions C15_Long4_refuted.
-Print Assumptions C15_Unicode_nonascii_refuted.
-Print Assumptions C15_Unicode_escape_refuted.
+Print Assumptions C15_encode_long_roundtrip.
+Print Assumptions C15_utf8_decode_inverts.
+Print Assumptions C15_raw_unicode_escape_roundtrip.
+Print Assumptions C15_repr_roundtrip.
 Print Assumptions C15_long_never_chosen.
